@@ -425,6 +425,20 @@ def bounded_kde_numerics(chk):
                 case = {'n': n, 'bw_method': bw, 'data_seed': [chk.seed or 0, n, str(bw), rep_]}
                 evals += 1
                 distinct.add((n, str(bw), rep_))
+                # the density and the CDF describe the same kernel estimate, whatever the bandwidth rule: the integral of
+                # probability_density over [a, b] is the CDF increment (composite trapezoid on 4001 points per interval)
+                sd = float(np.std(data))
+                edges = np.linspace(data.min() - 3 * sd, data.max() + 3 * sd, 6)
+                trap = getattr(np, 'trapezoid', None) or np.trapz
+                for a_, b_ in zip(edges[:-1], edges[1:]):
+                    g = np.linspace(a_, b_, 4001)
+                    integral = float(trap(m.probability_density(g), g))
+                    inc = float(np.diff(m.cumulative_distribution(np.array([a_, b_])))[0])
+                    if abs(integral - inc) > 2e-5:
+                        chk.bounded_violation('C03.GaussianKDE.pdf_integrates_to_cdf.bounded', dict(case, interval=[float(a_), float(b_)]),
+                                              'integral of probability_density over [%.4g, %.4g] is %.6f, the CDF increment is %.6f'
+                                              % (a_, b_, integral, inc))
+                        break
                 for method in ('chandrupatla', 'bisect'):
                     try:
                         x = m.percent_point(q, method=method)
@@ -434,6 +448,10 @@ def bounded_kde_numerics(chk):
                                                   'cdf(percent_point(q)) = %r for q = %r' % (back.tolist(), q.tolist()))
                     except AssertionError:
                         kde_bracket_violation(chk, dict(case, method=method), n, bw)
+    chk.bounded.append({'name': 'C03.GaussianKDE.pdf_integrates_to_cdf.bounded', 'clause': 'probability_density integrates to the '
+                        'CDF increment, for every bandwidth rule', 'bound': 'the same (n, bw_method, dataset) cases; 5 intervals '
+                        'covering [min - 3 std, max + 3 std], trapezoid on 4001 points, tolerance 2e-5',
+                        'evaluations': evals * 5, 'distinct_nontrivial': len(distinct), 'rule': 'one case = (n, bandwidth rule, dataset)'})
     chk.bounded.append({'name': 'C03.GaussianKDE.ppf.bounded', 'clause': 'KDE percent_point inverts the CDF; root-finder '
                         'bracket valid at the upper end', 'bound': 'n in %r x bw_method in (scott, silverman, 0.1, 0.5, 1.0) '
                         'x %d datasets x 7 probabilities in [1e-6, 1-1e-6], both root finders' % (sizes, reps),
